@@ -119,7 +119,11 @@ func checkC06(c *Ctx) {
 	nG, nRefs := 0, 0
 	for _, w := range c.globalWrites(live, &nRefs) {
 		nG++
-		r.Bad("C06.global-state", w.g.Name()+":"+fname(w.f), c.pos(w.in), "code reachable from block, message or query processing "+w.how+" the package-level variable "+w.g.Pkg.Pkg.Name()+"."+w.g.Name()+": process-local state survives discarded store branches and is lost on restart, so nodes can compute different results from the same blocks")
+		gname, gdesc := "sync.Map", "process-local memory"
+		if w.g != nil {
+			gname, gdesc = w.g.Name(), "the package-level variable "+w.g.Pkg.Pkg.Name()+"."+w.g.Name()
+		}
+		r.Bad("C06.global-state", gname+":"+fname(w.f), c.pos(w.in), "code reachable from block, message or query processing "+w.how+" "+gdesc+": process-local state survives discarded store branches and is lost on restart, so nodes can compute different results from the same blocks")
 	}
 	if nG == 0 {
 		r.Ok("C06.global-state", "all", "-", sprintf("no write to package-level state of the module in %d reachable functions (%d read references)", len(live), nRefs))
@@ -731,6 +735,10 @@ func (c *Ctx) globalWrites(fns map[*ssa.Function]bool, nRefs *int) []globalWrite
 				}
 				g := globalRoot(args[0])
 				if g == nil {
+					// a concurrent map / atomic hung on a long-lived object (the keeper) is process-local state as well
+					if d.Pkg == "sync" && d.Recv == "Map" && (d.Name == "Store" || d.Name == "LoadOrStore" || d.Name == "LoadAndDelete" || d.Name == "Delete" || d.Name == "Swap" || d.Name == "CompareAndSwap") {
+						out = append(out, globalWrite{f, in, nil, "mutates a sync.Map (" + d.Name + ") that lives outside the store –"})
+					}
 					return
 				}
 				mut := false
